@@ -44,7 +44,7 @@ def meta(tier):
     import torchtt._division as dv
     fns = [dv.amen_divide, tt.elementwise_divide, tt.TT.__truediv__, tt.TT.__rtruediv__]
     return {
-        'functions': loader.functions_encoded(fns), 'sig': sig,
+        'overapprox': True, 'functions': loader.functions_encoded(fns), 'sig': sig,
         'bounds': 'CLAUSE DECIDED: only "x / y, scalar / y and elementwise_divide(x, y, ...) return a TT tensor of the same shape (well-formed rank chain) and raise nothing". ("Dividing by a scalar is exact" is decided under C03.) '
                   'orders 1..3, mode sizes 1..3 (singleton modes first, last and interior), ranks 1..3, nswp 1..2, preconditioner None / c, optional initial guess; the 50-sweep loop of the operators is unrolled 1 (thorough 2) times; every floating value is havoc',
         'outside': 'the accuracy clause of C13 (an AMEn solve: convergence not encodable); later sweeps of the operators; the Krylov loops themselves (replaced by a contract)',
